@@ -79,11 +79,7 @@ def insert (s : PS) (data : Val) : Except Err (PS × Option Nat) := do
     | none => throw Err.oob
   let c ← s.mem.get (.node k)
   if c.val.inUsed = 1 then return (s, none)
-  let m ← s.mem.setPrev (.node k) s.mem.tail.prev      -- p_slot->prev = tail.prev
-  let m ← m.setNext (.node k) (some .tail)             -- p_slot->next = &tail
-  let tp ← deref m.tail.prev
-  let m ← m.setNext tp (some (.node k))                -- tail.prev->next = p_slot
-  let m ← m.setPrev .tail (some (.node k))             -- tail.prev = p_slot
+  let m ← s.mem.linkTail (.node k)
   let c ← m.get (.node k)
   let m ← m.setVal (.node k) { c.val with data := data, inUsed := 1 }
   return ({ s with mem := m, allocIndex := s.allocIndex + 1 }, some c.val.slotIdx)
@@ -102,11 +98,7 @@ def remove (s : PS) (idx : Nat) : Except Err (PS × RmResult) := do
   let freeIdx := ringIdx s.freeIndex s.capacity
   if freeIdx ≥ s.ppSlots.length then throw Err.oob
   let pp := s.ppSlots.set freeIdx idx                  -- pp_slots[free_idx] = p_slot
-  let p ← deref c.prev
-  let m ← s.mem.setNext p c.next                       -- p_slot->prev->next = p_slot->next
-  let c ← m.get (.node idx)
-  let n ← deref c.next
-  let m ← m.setPrev n c.prev                           -- p_slot->next->prev = p_slot->prev
+  let m ← s.mem.unlink (.node idx)
   let m ← m.setPrev (.node idx) none
   let m ← m.setNext (.node idx) none
   let c ← m.get (.node idx)
@@ -124,7 +116,8 @@ def get (s : PS) (idx : Nat) : Except Err Val := do
 def iterate (s : PS) : Except Err (List (Nat × Val)) := do
   let first ← deref s.mem.head.next
   let refs ← s.mem.walkFwd (s.mem.cells.length + 1) first
-  refs.mapM (fun r => do let c ← s.mem.get r; pure (c.val.slotIdx, c.val.data))
+  let cells ← refs.mapM s.mem.readCell
+  pure (cells.map (fun (_, v) => (v.slotIdx, v.data)))
 
 /-! ## Specification: the live entries in insertion order -/
 
